@@ -171,6 +171,8 @@ def run(ck):
         tnum += 1
         tid = "G%d" % tnum
 
+  cross_row_chains(ck, ed, rng)
+
   # stored documents: cyclic graphs (and the witnesses) stored and loaded into new engines
   cyclic = [(k, d) for (k, d) in graphs[n_wit:] if any(rh.expected_values(k, d, [0] * k, 0)[1])]
   n_store = 45 if ck.tier == "quick" else 400
@@ -196,6 +198,97 @@ def run(ck):
   if mism and not ck.has_impl_violation():
     ck.broken("correspondence engine update loop vs Grist.Recalc machine",
               "engine values or finishing order are not an accepted run of the model", mism)
+
+
+def _chain_judge(doc):
+  """The clauses of `cross_row_chains` on the document's current state; (signature, detail) or None."""
+  import objtypes
+  def cells(doc, tid, col):
+    td = doc.engine.fetch_table(tid, formulas=True)
+    return dict(zip(td.row_ids, td.columns[col]))
+  def is_circ(v):
+    return isinstance(v, objtypes.RaisedException) and "CircularRef" in (objtypes.encode_object(v)[1] if isinstance(objtypes.encode_object(v), list) else "")
+  kk, vv = cells(doc, "X", "k"), cells(doc, "X", "v")
+  bad = None
+  for col in ("a", "b", "cum"):
+    for row, val in cells(doc, "X", col).items():
+      if is_circ(val):
+        bad = ("a cell that lies on no cycle holds CircularRefError (cross-row chain through the same columns)",
+               "X[%d].%s with keys %r" % (row, col, sorted(kk.values())))
+        break
+    if bad:
+      break
+  if not bad:
+    by_k = {k_: r_ for r_, k_ in kk.items()}
+    cum = cells(doc, "X", "cum")
+    for row in kk:
+      want, k_ = 0, kk[row]
+      while k_ in by_k:
+        want += vv[by_k[k_]]
+        k_ -= 1
+      if cum[row] != want:
+        bad = ("cumulative column over a cross-row chain has a wrong value", "X[%d].cum = %r, expected %r (keys %r)" % (
+          row, cum[row], want, sorted(kk.values())))
+        break
+  if not bad:
+    y = doc.engine.fetch_table("Y", formulas=True)
+    if not (is_circ(y.columns["x"][0]) and is_circ(y.columns["y"][0])) or y.columns["z"][0] != 2:
+      bad = ("a real 2-cycle next to the chains is not reported (or its bystander is wrong)",
+             "Y: x=%r y=%r z=%r" % (y.columns["x"][0], y.columns["y"][0], y.columns["z"][0]))
+  return bad
+
+
+def cross_row_chains(ck, ed, rng):
+  """Fixed family, direct oracle only (the Lean machine models same-row references): dependency chains that run
+  ACROSS rows through the same columns and never close a cycle - a cumulative column reading the previous row through
+  a lookup, and a two-column chain a[r] -> b[r] -> a[r+1] - next to a real 2-cycle in another table.  No cell of the
+  chains lies on a cycle, so none may hold CircularRefError, and the cumulative values must be the running sums;
+  the real cycle must still be reported.  Checked after the build and after re-keying / editing rows, under the
+  engine's own schedule and under permuted ones."""
+  import objtypes
+  from gx import recalc_harness as rh
+  def cells(doc, tid, col):
+    td = doc.engine.fetch_table(tid, formulas=True)
+    return dict(zip(td.row_ids, td.columns[col]))
+  def is_circ(v):
+    return isinstance(v, objtypes.RaisedException) and "CircularRef" in (objtypes.encode_object(v)[1] if isinstance(objtypes.encode_object(v), list) else "")
+  n_docs = 4 if ck.tier == "quick" else 40
+  for di in range(n_docs):
+    n = rng.choice([2, 3, 4, 6])
+    perm = None if di % 2 == 0 else rng.randint(0, 10 ** 6)
+    doc = ed.Doc()
+    ks = list(range(1, n + 1))
+    rng.shuffle(ks)
+    build = [["AddTable", "X", [{"id": "k", "type": "Int", "isFormula": False, "formula": ""},
+                                {"id": "v", "type": "Int", "isFormula": False, "formula": ""},
+                                {"id": "a", "type": "Any", "isFormula": True, "formula": "$b"},
+                                {"id": "b", "type": "Any", "isFormula": True, "formula": "X.lookupOne(k=$k+1).a"},
+                                {"id": "cum", "type": "Any", "isFormula": True,
+                                 "formula": "(X.lookupOne(k=$k-1).cum or 0) + $v"}]],
+             ["AddTable", "Y", [{"id": "x", "type": "Any", "isFormula": True, "formula": "$y"},
+                                {"id": "y", "type": "Any", "isFormula": True, "formula": "$x"},
+                                {"id": "z", "type": "Any", "isFormula": True, "formula": "1 + 1"}]],
+             ["BulkAddRecord", "X", [None] * n, {"k": ks, "v": [10 * k for k in ks]}],
+             ["AddRecord", "Y", None, {}]]
+    steps = [build,
+             [["UpdateRecord", "X", 1, {"v": 7}]],
+             [["BulkUpdateRecord", "X", list(range(1, n + 1)), {"k": [k + 1 for k in ks]}]],     # re-key every row
+             [["UpdateRecord", "X", n, {"k": 100}]],                                             # cut the chain
+             [["BulkUpdateRecord", "X", list(range(1, n + 1)), {"k": ks, "v": [k for k in ks]}]]]
+    for si, bundle in enumerate(steps):
+      with rh.Recording(perm_seed=perm, trace=False, reads=False):
+        r = doc.apply(bundle)
+      ck.evaluated()
+      rp = {"family": "cross_row_chains", "steps": steps[:si + 1], "perm": perm}
+      if not r.ok:
+        ck.violation("recalculation raised an internal error (cross-row chain): " + r.error[0], r.error[1], rp)
+        break
+      bad = _chain_judge(doc)
+      if bad:
+        ck.violation(bad[0], bad[1], rp)
+        break
+      ck.count("cross_row_chain_states_judged")
+      ck.nontrivial_case(["cross_row_chain", n, si, perm is not None])
 
 
 # --------------------------------------------------------------------------- one graph table
@@ -639,6 +732,20 @@ def replay(ck, rp):
   r = rp["replay"]
   if "graph" in r:
     r = r["graph"]
+  if r.get("family") == "cross_row_chains":
+    doc = ed.Doc()
+    for bundle in r["steps"]:
+      with rh.Recording(perm_seed=r.get("perm"), trace=False, reads=False):
+        res = doc.apply(bundle)
+      ck.evaluated()
+      bad = ("recalculation raised an internal error (cross-row chain): " + res.error[0], res.error[1]) if not res.ok \
+        else _chain_judge(doc)
+      print("replay step %s -> %s" % (json.dumps(bundle)[:100], bad or "ok"))
+      if bad:
+        ck.violation(bad[0], bad[1], r)
+        break
+    ck.nontrivial_case("replay"); ck.nontrivial_case("replay2")
+    return
   if r.get("steps"):
     # exact: the steps the table went through, from the initial build on
     doc = ed.Doc()
